@@ -789,9 +789,22 @@ def predictors(ctx, f):
         ok = S.compare(tmpl, want_t)["verdict"] == "equal" and init == S.sym("lpcqoffset") and S.show(it) == "range(nlpc)"
     else:
         # augmented-assignment loop (sum += ...) is not a fold; analyse its body directly
-        evi = cc.body_eval(prog, f, inner[0].body)
-        t = evi.env.get("sum")
         jj = S.sym(inner[0].target.id)
+        # counters stepped by a constant on every round of the inner loop (`k = i` before it, `k -= 1` inside): at the top of round j the
+        # counter is its initial value plus j steps
+        evi = SymEval(prog, f)
+        evi.env = {}
+        for st_ in inner[0].body:
+            if isinstance(st_, ast.AugAssign) and isinstance(st_.target, ast.Name) and isinstance(st_.op, (ast.Add, ast.Sub)) \
+                    and isinstance(st_.value, ast.Constant) and isinstance(st_.value.value, int) and st_.target.id != "sum":
+                inits_ = [s_ for s_ in samp.body if isinstance(s_, ast.Assign) and astq.is_name(s_.targets[0], st_.target.id) and s_.lineno < inner[0].lineno]
+                if len(inits_) == 1:
+                    ev0_ = SymEval(prog, f)
+                    ev0_.env = {}
+                    step_ = S.lift(st_.value.value if isinstance(st_.op, ast.Add) else -st_.value.value)
+                    evi.env[st_.target.id] = S.add(ev0_.expr(inits_[0].value), S.mul(step_, jj))
+        evi.block(inner[0].body)
+        t = evi.env.get("sum")
         want_t = S.add(S.sym("sum"), S.mul(S.call("getitem", S.sym("qlpc"), jj), S.call("getitem", S.sym("cbuffer"), S.sub(S.sub(i, jj), S.lift(1)))))
         ok = t is not None and S.compare(t, want_t)["verdict"] == "equal" and astq.text(inner[0].iter) == "range(nlpc)"
         init = [s for s in samp.body if isinstance(s, ast.Assign) and astq.is_name(s.targets[0], "sum")]
